@@ -359,3 +359,11 @@ def _shared_root(t, body):
         else:
             return None
     return None
+
+
+FIXTURE_EXPECT = ['positional-on-shared', 'thread-identity', 'ordered_from_hash|hash|push(out)', 'ordered_from_hash|hash|find']
+
+
+def thorough(res):
+    from .. import engine
+    engine.sensitivity("C18", res)
